@@ -76,4 +76,23 @@ def Steps.anyComplex : Steps → Bool
   | .nil => false
   | .cons ax test op rest => stepComplex ax test op || rest.anyComplex
 
+/-- a real path from `a` to `b` along the names `stack` that is admitted by the axis -/
+def axisPath (g : Graph) : Axis → Node → List Str → Node → Prop
+  | .self, a, s, b => s = [] ∧ a = b
+  | .child, a, s, b => ∃ e ∈ g.children a, s = [e.name] ∧ e.node = b
+  | .directChild, a, s, b => ∃ e ∈ g.children a, s = [e.name] ∧ e.node = b ∧ e.direct = true
+  | .descendant, a, s, b => s ≠ [] ∧ PathWithin g (List.range g.size) a s b
+  | .descendantOrSelf, a, s, b => PathWithin g (List.range g.size) a s b
+  | .directDescendant, a, s, b => s ≠ [] ∧ PathWithin { g with children := fun i => (g.children i).filter (·.direct) } (List.range g.size) a s b
+  | .directDescendantOrSelf, a, s, b => PathWithin { g with children := fun i => (g.children i).filter (·.direct) } (List.range g.size) a s b
+
+/-- the path `stack` from `a` to `b` passes through the steps of the query: it can be cut into one
+piece per step, each piece admitted by the axis and ending in a package that passes the name test
+and the predicate of the step -/
+def semPath (g : Graph) : Steps → Node → List Str → Node → Prop
+  | .nil, a, s, b => s = [] ∧ a = b
+  | .cons ax test op rest, a, s, b =>
+    ∃ c s1 s2, s = s1 ++ s2 ∧ axisPath g ax a s1 c ∧ nameTest test (g.name c) = true ∧ holdsOpt g op c ∧
+      semPath g rest c s2 b
+
 end PathSpec
